@@ -29,6 +29,7 @@ import enum
 import inspect
 import json
 import textwrap
+import warnings
 from fractions import Fraction
 from pathlib import Path
 
@@ -564,7 +565,7 @@ def probe_device_decoder(virtual: bool):
 
     res_dev: dict[str, object] = {}
     bases = probe_devices(virtual)
-    jsons = [json.loads(d.to_abstract_repr()) for d in bases]
+    jsons = [raw_json(d) for d in bases]
     all_keys = []
     for j in jsons:
         for k in j:
@@ -611,7 +612,7 @@ def probe_device_decoder(virtual: bool):
                 dev = probe_devices(virtual, channels=(base,))[1]
                 dev = dataclasses.replace(dev, default_noise_model=None, **coeff)
                 where = "channels"
-            j = json.loads(dev.to_abstract_repr())
+            j = raw_json(dev)
             chj = j[where][0]
             for k in list(chj):
                 if k in res and res[k] is not INCONCLUSIVE:
@@ -659,7 +660,7 @@ def probe_device_decoder(virtual: bool):
 def probe_layout_decoder():
     from pulser.json.abstract_repr.deserializer import _deserialize_layout
 
-    j = json.loads(probe_layout().to_abstract_repr())
+    j = raw_json(probe_layout())
     res = {}
     for k in list(j):
         jj = copy.deepcopy(j)
@@ -867,12 +868,12 @@ def build_tables() -> dict:
         # fields the encoder never writes: not in any probe encoding although set
         seen = set()
         for d in probe_devices(virtual):
-            seen |= set(json.loads(d.to_abstract_repr()))
+            seen |= set(raw_json(d))
         skip = [n for n in names if n not in seen]
         dd, rq = _split_probe(probe, names)
         # a field that is never written always takes the decoder's fallback: read it off a decoded probe
         decoded = dict(device_value(deserializer._deserialize_device_object(
-            json.loads(probe_devices(virtual)[0].to_abstract_repr())))[1])
+            raw_json(probe_devices(virtual)[0])))[1])
         dd += [(n, decoded[n]) for n in skip if n not in dict(dd)]
         consts = [("version", vstr("1")), ("pulser_version", vstr(pulser.__version__)),
                   ("is_virtual", vbool(virtual))]
@@ -897,8 +898,8 @@ def build_tables() -> dict:
         if k not in rq:
             raise TableError(f"_deserialize_layout reads layout_obj[{k!r}] but the probe says it is optional")
     # keys the layout encoder drops: those absent from the encoding of a layout built with defaults
-    minimal = json.loads(probe_layout(False).to_abstract_repr())
-    maximal = json.loads(probe_layout(True).to_abstract_repr())
+    minimal = raw_json(probe_layout(False))
+    maximal = raw_json(probe_layout(True))
     lay_opt = [k for k in maximal if k not in minimal]
     props, req = schema_layout()
     out["layout"] = Tab("RegisterLayout", lay_fields, lay_opt, [], [], [], dd, rq, props, req)
@@ -951,13 +952,21 @@ def self_test(tabs: dict) -> None:
             for e in (probe_eom(True), probe_eom(False))]
     check(tabs["eom"], encs, "RydbergEOM._to_abstract_repr")
     for name, virtual in (("Device", False), ("VirtualDevice", True)):
-        encs = [json.loads(d.to_abstract_repr()) for d in probe_devices(virtual)]
+        encs = [raw_json(d) for d in probe_devices(virtual)]
         if virtual:
             import dataclasses as _dc
-            encs.append(json.loads(_dc.replace(probe_devices(True)[1], dmm_objects=()).to_abstract_repr()))
+            encs.append(raw_json(_dc.replace(probe_devices(True)[1], dmm_objects=())))
         check(tabs["devices"][name], encs, f"{name}._to_abstract_repr")
-    encs = [json.loads(probe_layout(s).to_abstract_repr()) for s in (True, False)]
+    encs = [raw_json(probe_layout(s)) for s in (True, False)]
     check(tabs["layout"], encs, "RegisterLayout._to_abstract_repr")
+
+
+def raw_json(obj):
+    """The abstract representation *without* the library's schema validation (the tables must be
+    extractable from a source whose encodings no longer validate: that is what `TablesOk` then reports)."""
+    from pulser.json.abstract_repr.serializer import AbstractReprEncoder
+
+    return json.loads(json.dumps(obj, cls=AbstractReprEncoder))
 
 
 def _enc_default(o):
@@ -1033,7 +1042,14 @@ def render(tabs: dict) -> str:
 
 def regenerate() -> tuple[dict, bool]:
     """Rebuild the tables and rewrite Fields.lean when its content changes. -> (tables, changed)"""
-    tabs = build_tables()
+    try:
+        with warnings.catch_warnings():
+            warnings.simplefilter("ignore")
+            tabs = build_tables()
+    except TableError:
+        raise
+    except Exception as e:  # noqa: BLE001  (a probe object cannot be built / encoded / decoded any more)
+        raise TableError(f"table extraction failed with {type(e).__name__}: {str(e)[:400]}") from e
     text = render(tabs)
     GENERATED.parent.mkdir(parents=True, exist_ok=True)
     old = GENERATED.read_text() if GENERATED.exists() else None
